@@ -568,6 +568,43 @@ func New%[1]d(n int) any { return T%[1]d{n} }
 			g.q("main", "pa", fmt.Sprintf("Hook%d", u)), g.q("main", "q.r/pa", fmt.Sprintf("Hook%d", u))))
 		return "main"
 	}},
+	{"method_values_same_named_types", true, func(g *G, u int) string {
+		// method values and method expressions of same-named types from two packages (and a local one) used in ONE
+		// package: the wrappers the compiler synthesises for them must not share a link name
+		libs, user := []string{"pa", "q.r/pa"}, "main"
+		if g.n(0, 1, "libs") == 1 {
+			libs, user = []string{"pb", "pc/sub"}, g.pick([]string{"main", "pa", "q.r/pa"}, "user")
+		}
+		for i, p := range libs {
+			g.add(p, fmt.Sprintf(`type MV%[1]d struct{ N int }
+
+func (t MV%[1]d) Get() int   { return t.N*10 + %[2]d }
+func (t *MV%[1]d) Ptr() int  { return t.N*100 + %[2]d }
+
+type MI%[1]d interface{ Get() int }
+`, u, i+1))
+		}
+		k := g.n(3, 9, "k")
+		g.add(user, fmt.Sprintf(`type MV%[1]d struct{ N int }
+
+func (t MV%[1]d) Get() int  { return t.N*10 + %[4]d }
+func (t *MV%[1]d) Ptr() int { return t.N*100 + %[4]d }
+
+func U%[1]d() {
+	a, b, c := %[2]s{1}, %[3]s{2}, MV%[1]d{3}
+	f1, f2, f3 := a.Get, b.Get, c.Get          // bound method values
+	p1, p2, p3 := (&a).Ptr, (&b).Ptr, (&c).Ptr // bound through pointers
+	e1, e2, e3 := %[2]s.Get, %[3]s.Get, MV%[1]d.Get // method expressions
+	x1, x2, x3 := (*%[2]s).Ptr, (*%[3]s).Ptr, (*MV%[1]d).Ptr
+	var i1 %[5]s = a
+	var i2 %[6]s = b
+	g1, g2 := i1.Get, i2.Get
+	println("#%[1]d", f1(), f2(), f3(), p1(), p2(), p3(), e1(a), e2(b), e3(c), x1(&a), x2(&b), x3(&c), g1(), g2())
+}
+`, u, g.q(user, libs[0], fmt.Sprintf("MV%d", u)), g.q(user, libs[1], fmt.Sprintf("MV%d", u)), k,
+			g.q(user, libs[0], fmt.Sprintf("MI%d", u)), g.q(user, libs[1], fmt.Sprintf("MI%d", u))))
+		return user
+	}},
 	{"structs_arrays_copy", false, func(g *G, u int) string {
 		p := g.pkgOrMain()
 		a := g.n(1, 9, "a")
